@@ -107,7 +107,13 @@ def e_exact(x, y, z):
 
 
 ALWAYS = ['SMFixedContext(2, 3, RM.RTZ, OV.WRAP)', 'SMFixedContext(-3, 3, RM.RNE, OV.WRAP)', 'SMFixedContext(0, 3, RM.RNA, OV.WRAP)', 'SMFixedContext(1, 2, RM.RTZ, OV.WRAP)',
-          'FixedContext(True, 2, 3, RM.RTZ, OV.WRAP)', 'FixedContext(False, 0, 2, RM.RNE, OV.WRAP)']
+          'FixedContext(True, 2, 3, RM.RTZ, OV.WRAP)', 'FixedContext(False, 0, 2, RM.RNE, OV.WRAP)',
+          # formats whose negative bound reaches further than the positive one AND whose overflow result is not the bound (an infinity
+          # or a substitute): the two thresholds of an early overflow check differ and crossing either is observable (seeded C10-4)
+          'FixedContext(True, 0, 5, RM.RNE, OV.OVERFLOW, inf_value=Float(c=0))', 'FixedContext(True, -2, 5, RM.RNA, OV.OVERFLOW, inf_value=Float(c=15, exp=-2))',
+          'MPBFixedContext(-1, RealFloat(exp=0, c=15), RM.RNE, OV.OVERFLOW, neg_maxval=RealFloat(s=True, exp=0, c=16), enable_inf=True)',
+          'MPBFixedContext(-3, RealFloat(exp=0, c=5), RM.RTP, OV.OVERFLOW, neg_maxval=RealFloat(s=True, exp=0, c=12), enable_inf=True)',
+          'MPBFloatContext(3, -2, RealFloat(exp=0, c=6), RM.RNE, OV.OVERFLOW, neg_maxval=RealFloat(s=True, exp=1, c=7), enable_inf=True)']
 
 
 def chain_steps():
